@@ -374,8 +374,8 @@ Definition P_periodic (sc : script) (ob : obs) : bool :=
    job runs": once the goroutine of the job has ended -- the parent context was cancelled (while it
    waited OR while jobFunc was in flight), CancelJob returned nil, runtimeFunc had no further instance
    (ErrNoMoreInstances or an error of its own), a one-off job was started -- the name refers to no job:
-   JobExists is false, RunJob / CancelJob do not report success (nobody would run the job), a
-   ScheduleJob of the name is accepted.  All of it is decided on the script and the observation:
+   JobExists is false, RunJob / CancelJob find no such job (a run request must not report success:
+   nobody would run the job), a ScheduleJob of the name is accepted.  All of it is decided on the script and the observation:
    [gone_before t] = the observation shows that the goroutine had ended before instant [t]. *)
 Definition is_dup (c : call) : bool := ckind_eqb (cl_kind c) KDup.
 
@@ -407,7 +407,10 @@ Definition after_exit_ok (sc : script) (ob : obs) : bool :=
                    let '(c, s) := cs in
                    (gone_before sc ob (cl_at c) && no_other_dup sc c) ==>
                      match cl_kind c with
-                     | KRun | KCancel => negb (ret_nil s)
+                     | KRun | KCancel =>   (* "no such job" (or silent, or an error that is none of the
+                                              scheduler's: [Hung] + [ob_foreign]); ErrJobRunning / ErrJobFinalised
+                                              would speak of a job that is no longer there *)
+                         cst_eqb s (Ret ErrNoSuchJob) || cst_eqb s Silent || is_hung s
                      | KExists => cst_eqb s (RetB false)
                      | KDup => cst_eqb s (Ret Nil)
                      | KCtx => true
